@@ -9,6 +9,7 @@
 import SoyVerif.Lemmas.EscapeQuery
 import SoyVerif.Lemmas.EscapeBreaks
 import SoyVerif.Lemmas.Truncate
+import SoyVerif.Lemmas.JsEscapeB
 
 namespace SoyVerif.Props.C16
 open SoyVerif SoyVerif.Model SoyVerif.Spec SoyVerif.Model.Directives
@@ -62,22 +63,21 @@ example : insertWordBreaks [240, 159, 152, 128, 97] 1 = [240, 159, 152, 128, 60,
     (`truncArgs n none` = one argument, ellipsis defaults to true; `truncCut` = n-3 if the ellipsis
     is on and n > 3, else n; `truncEll` = "..." in that case, else nothing):
 
+    * the call never panics;
     * a value that fits is returned unchanged;
-    * otherwise EITHER the result is `str[:k] ++ truncEll` where k is the LAST rune start at or
-      before the cut position (the byte at k is not a continuation byte, every byte after it up
-      to the cut is), and it is at most n bytes long,
-      OR the call panics (index -1) — and that happens exactly when every byte from 0 up to the
-      cut position is a continuation byte, which no well-formed string allows;
-    * on well-formed UTF-8 there is always a result and it is well-formed UTF-8. -/
+    * otherwise the result is `str[:k] ++ truncEll` where k is the LAST rune start at or before
+      the cut position — the byte at k is not a continuation byte and every byte after it up to
+      the cut is — or k = 0 (the empty prefix) when there is no rune start there (text that
+      begins with continuation bytes, i.e. not UTF-8); it is at most n bytes long;
+    * on well-formed UTF-8 the result is well-formed UTF-8. -/
 theorem truncate_spec (str : Bytes) (n : Nat) (oe : Option Bool) :
     (str.length ≤ n → truncate str (truncArgs n oe) = .ok str) ∧
     (n < str.length →
-      (∃ k, truncate str (truncArgs n oe) = .ok (str.take k ++ truncEll n (oe.getD true)) ∧
-          k ≤ truncCut n (oe.getD true) ∧ startAt str k ∧
+      ∃ k, truncate str (truncArgs n oe) = .ok (str.take k ++ truncEll n (oe.getD true)) ∧
+          k ≤ truncCut n (oe.getD true) ∧ (k = 0 ∨ startAt str k) ∧
           (∀ j, k < j → j ≤ truncCut n (oe.getD true) → contAt str j) ∧
-          (str.take k ++ truncEll n (oe.getD true)).length ≤ n) ∨
-      (truncate str (truncArgs n oe) = .panic ∧ ∀ j, j ≤ truncCut n (oe.getD true) → contAt str j)) ∧
-    (ValidUtf8 str → ∃ out, truncate str (truncArgs n oe) = .ok out ∧ ValidUtf8 out) := by
+          (str.take k ++ truncEll n (oe.getD true)).length ≤ n) ∧
+    (∃ out, truncate str (truncArgs n oe) = .ok out ∧ (ValidUtf8 str → ValidUtf8 out)) := by
   have hcut : truncCut n (oe.getD true) ≤ n := by unfold truncCut; split <;> omega
   have hlen : ∀ k, k ≤ truncCut n (oe.getD true) → n < str.length →
       (str.take k ++ truncEll n (oe.getD true)).length ≤ n := by
@@ -93,39 +93,79 @@ theorem truncate_spec (str : Bytes) (n : Nat) (oe : Option Bool) :
     · rw [if_neg hc] at hk ⊢
       simp only [List.length_nil]
       omega
-  have hdich : n < str.length →
-      (∃ k, truncate str (truncArgs n oe) = .ok (str.take k ++ truncEll n (oe.getD true)) ∧
-          k ≤ truncCut n (oe.getD true) ∧ startAt str k ∧
+  have hcase : n < str.length →
+      ∃ k, truncate str (truncArgs n oe) = .ok (str.take k ++ truncEll n (oe.getD true)) ∧
+          k ≤ truncCut n (oe.getD true) ∧ (k = 0 ∨ startAt str k) ∧
           (∀ j, k < j → j ≤ truncCut n (oe.getD true) → contAt str j) ∧
-          (str.take k ++ truncEll n (oe.getD true)).length ≤ n) ∨
-      (truncate str (truncArgs n oe) = .panic ∧ ∀ j, j ≤ truncCut n (oe.getD true) → contAt str j) := by
+          (str.take k ++ truncEll n (oe.getD true)).length ≤ n := by
     intro hl
     rw [truncate_unfold, if_neg (by omega)]
-    cases hs : scanBack str (truncCut n (oe.getD true)) with
-    | none => exact Or.inr ⟨rfl, scanBack_none str _ (by omega) hs⟩
-    | some k =>
-      obtain ⟨h1, h2, h3⟩ := scanBack_some str _ k hs
-      exact Or.inl ⟨k, rfl, h1, h2, h3, hlen k h1 hl⟩
-  refine ⟨fun hl => by rw [truncate_unfold, if_pos hl], hdich, fun hv => ?_⟩
+    obtain ⟨k, hs⟩ := scanBack_isSome str (truncCut n (oe.getD true)) (by omega)
+    obtain ⟨h1, h2, h3⟩ := scanBack_some str _ k hs
+    exact ⟨k, by rw [hs], h1, h2, h3, hlen k h1 hl⟩
+  refine ⟨fun hl => by rw [truncate_unfold, if_pos hl], hcase, ?_⟩
   by_cases hl : str.length ≤ n
-  · exact ⟨str, by rw [truncate_unfold, if_pos hl], hv⟩
-  · have hne : str ≠ [] := by rintro rfl; simp at hl
-    rcases hdich (by omega) with ⟨k, hk, _, hst, _, _⟩ | ⟨_, hall⟩
-    · refine ⟨_, hk, ValidUtf8.append (ValidUtf8.take hv k (Or.inr hst)) ?_⟩
-      unfold truncEll
+  · exact ⟨str, by rw [truncate_unfold, if_pos hl], id⟩
+  · obtain ⟨k, hk, _, hst, _, _⟩ := hcase (by omega)
+    refine ⟨_, hk, fun hv => ValidUtf8.append ?_ ?_⟩
+    · rcases hst with rfl | hst
+      · simp; exact ValidUtf8.nil
+      · exact ValidUtf8.take hv k (Or.inr hst)
+    · unfold truncEll
       split
       · exact ValidUtf8.seq [46] _ (by decide) (ValidUtf8.seq [46] _ (by decide) (ValidUtf8.seq [46] _ (by decide) ValidUtf8.nil))
       · exact ValidUtf8.nil
-    · exact absurd (hall 0 (Nat.zero_le _)) (not_contAt_of_startAt (ValidUtf8.startAt_zero hv hne))
 
-/- "héllo wörld" style cases: the cut falls inside é (C3 A9) and moves back to its start -/
+/- "héllo" style cases: the cut falls inside é (C3 A9) and moves back to its start -/
 example : truncate [104, 195, 169, 108, 108, 111] (truncArgs 2 (some false)) = .ok [104] := by decide
 example : truncate [104, 195, 169, 108, 108, 111] (truncArgs 5 none) = .ok [104, 46, 46, 46] := by decide
 example : truncate [104, 195, 169] (truncArgs 3 none) = .ok [104, 195, 169] := by decide
-/- the panic the code really has: a string that starts with continuation bytes (not UTF-8) -/
-example : truncate [128, 128] (truncArgs 1 none) = .panic := by decide
-example : truncate [183] (truncArgs 0 none) = .panic := by decide
+/- text that starts with continuation bytes (not UTF-8): the empty prefix, no panic any more -/
+example : truncate [128, 128] (truncArgs 1 none) = .ok [] := by decide
+example : truncate [183] (truncArgs 0 none) = .ok [] := by decide
+example : truncate [128, 128, 128, 128, 128, 128] (truncArgs 5 none) = .ok [46, 46, 46] := by decide
 example : ValidUtf8 [104, 195, 169] :=
   ValidUtf8.seq [104] _ (by decide) (ValidUtf8.seq [195, 169] _ (by decide) ValidUtf8.nil)
+
+/-- (7) the JavaScript string escaper proposed for soy (`Model/JsEscape2.lean`:
+    text/template.JSEscape with astral runes as surrogate pairs), for EVERY table `isPrint`:
+
+    safety, for every byte string (UTF-8 or not) — the output
+    * has no control byte (so no LF / CR) and none of  < > & = ,
+    * has every ' and " directly behind an escaping backslash, and no dangling backslash,
+    * has no raw U+2028 / U+2029;
+
+    round trip, for every well-formed UTF-8 string — the strict evaluator of JavaScript string
+    literal text (`Spec.jsUnescape`: four-digit \u escapes, surrogate pairs, \\ \' \"; rejects
+    anything unsafe or ill-formed) accepts the output and yields exactly the value. -/
+theorem jsEscapeFixed_roundtrip_safe (isPrint : Nat → Bool) (s : Bytes) :
+    (∀ b ∈ jsEscapeFixedWith isPrint s, jsByteSafe b = true) ∧
+    jsQuotesEscaped (jsEscapeFixedWith isPrint s) = true ∧
+    noLineSep (jsEscapeFixedWith isPrint s) = true ∧
+    (ValidUtf8 s → jsUnescape (jsEscapeFixedWith isPrint s) = some s) := by
+  have h := SoyVerif.Lemmas.JsEscapeB.bytes_safe isPrint s 0
+  refine ⟨h.1, ?_, SoyVerif.Lemmas.JsEscapeB.lineSep_safe isPrint s 0, SoyVerif.Lemmas.JsEscapeB.roundtrip isPrint s⟩
+  have := h.2 []
+  simpa [jsQuotesEscaped, jsEscapeFixedWith, jsQuotesEscapedGo] using this
+
+/-- … in particular with unicode.IsPrint of the toolchain in use -/
+theorem jsEscapeFixed_roundtrip (s : Bytes) (h : ValidUtf8 s) : jsUnescape (jsEscapeFixed s) = some s :=
+  (jsEscapeFixed_roundtrip_safe Model.isPrint s).2.2.2 h
+
+/- U+F0000 (private use, not printable): `\uDB80\uDC00`, which evaluates back to F3 B0 80 80;
+   text/template.JSEscape writes `\uF0000` = U+F000 followed by "0" -/
+example : jsEscapeFixedWith (fun _ => false) [243, 176, 128, 128] =
+    [92, 117, 68, 66, 56, 48, 92, 117, 68, 67, 48, 48] := by decide
+example : jsUnescape [92, 117, 68, 66, 56, 48, 92, 117, 68, 67, 48, 48] = some [243, 176, 128, 128] := by decide
+example : jsUnescape [92, 117, 70, 48, 48, 48, 48] = some [239, 128, 128, 48] := by decide
+/- `</script>'` and U+2028 -/
+example : jsEscapeFixedWith (fun _ => true) [60, 47, 39, 226, 128, 168] =
+    [92, 117, 48, 48, 51, 67, 47, 92, 39, 92, 117, 50, 48, 50, 56] := by decide
+/- the evaluator is strict: raw quote, raw <, lone surrogate, five-digit leftovers are what they are -/
+example : jsUnescape [39] = none := by decide
+example : jsUnescape [60] = none := by decide
+example : jsUnescape [92, 117, 68, 56, 48, 48] = none := by decide
+example : jsUnescape [226, 128, 168] = none := by decide
+example : jsUnescape [195, 169, 92, 92] = some [195, 169, 92] := by decide
 
 end SoyVerif.Props.C16
